@@ -53,7 +53,7 @@ def generate(rng, tier):
         lr, er = r.uniform(0.001, 1.0), r.uniform(-2, 2)
         preds.append(('perceptron_ref', [g, ['#', fb.bits(lr)], ['#', fb.bits(er)], h, P.add('TPerceptron', g, P.f(lr), P.f(er), h)]))
         # em
-        ch = P.add('GNewAngle', P.f(pos(r)), P.add('ANew', P.f(float(r.choice([0, 1]))), P.f(1.0)) if r.chance(0.7) else canon_angle(P, r, False))
+        ch = P.add('GNewAngle', P.f(pos(r)), P.add('ANewBlade', P.u(r.choice([0, 2, 4, 6, 10, 1000, 1002])), P.f(0.0), P.f(1.0)) if r.chance(0.7) else canon_angle(P, r, False))
         dist = P.add('GNewAngle', P.f(pos(r)), canon_angle(P, r, False))
         pw = P.add('GScalar', P.f(r.choice([1.0, 2.0, 3.0, 0.5, r.uniform(0.5, 4)])))
         kc = P.add('GScalar', P.f(pos(r)))
